@@ -52,11 +52,57 @@ def spec(kind, allow_unicode, prefix, pat, scen):
     """-> ('reject',) or ('accept', prefixed pattern)"""
     if kind == "str" and "u" in pat and not allow_unicode:
         return ("reject",)
-    enc = merge("x" if s == "u" else s for s in pat)
+    enc = merge("h" if s == "u" else s for s in pat)
     full = merge(tuple(prefix) + tuple(enc))
     toks = tokens_of(full)
     legal = len(toks) == 1 and full[0] not in WS and full[-1] not in WS and NUL not in full and scen["T"] <= 250
     return ("accept", full) if legal else ("reject",)
+
+
+def illegal_key_rows(prog, rule):
+    """Every public key-addressed method of Client, interpreted end to end (rules_C05.script_eval) with the n-th
+    validated key illegal: the only outcome is MemcacheIllegalInputError - ignore_exc swallows failures of the
+    conversation with the server, not the caller's mistakes - and nothing has been sent when it is raised."""
+    from . import spec
+    from .rules_C05 import script_eval
+
+    n = 0
+    for mname, scripts in sorted(spec.CALL_SCRIPTS.items()):
+        f = prog.method("Client", mname, required=False)
+        if f is None or not any(f.param(p_) is not None for p_ in ("key", "keys", "values")):
+            continue
+        for nkeys, replies in scripts:
+            if nkeys == 0:
+                continue
+            for pos in range(1, nkeys + 1):
+                for ign in (False, True):
+                    for oneshot in ((False, True) if f.param("keys") is not None else (False,)):
+                        n += 1
+                        outs = script_eval(prog, mname, replies, nkeys=nkeys, ignore_exc=ign, full=True, fault="illegal-key:%d" % pos, oneshot=oneshot)
+                        what = "Client.%s(%d key(s)%s, ignore_exc=%s), key #%d illegal" % (mname, nkeys, ", one-shot" if oneshot else "", ign, pos)
+                        problems, vague = [], False
+                        for s_, v, t in outs.of("ret"):
+                            if s_.get("#nkeychk", 0) < pos:
+                                problems.append("returns %s without having validated key #%d" % (v, pos))
+                            else:
+                                problems.append("returns %s although key #%d was rejected" % (v, pos))
+                            vague = vague or bool(s_.get("#imprecise", 0))
+                        for s_, e, t in outs.of("exc"):
+                            if e.cls != "MemcacheIllegalInputError":
+                                problems.append("raises %s instead of MemcacheIllegalInputError" % e.cls)
+                                vague = vague or bool(s_.get("#imprecise", 0)) or e.cls is None
+                            elif s_.get("#nsend", 0):
+                                problems.append("has already sent a command when the illegal key is rejected")
+                        if not outs.of("ret") and not outs.of("exc"):
+                            problems.append("has no outcome")
+                        if not problems:
+                            rule.ok(what + ": MemcacheIllegalInputError, nothing sent", sample=(n < 3))
+                        elif vague:
+                            rule.undecided("Client.%s:illegal-key" % mname, "%s -- %s" % (what, "; ".join(dict.fromkeys(problems))))
+                        else:
+                            rule.fail("Client.%s:illegal-key" % mname, "%s: the call %s" % (what, "; ".join(dict.fromkeys(problems))), fn=f, node=f.node)
+    rule.count("illegal-key rows", n)
+    rule.floor("illegal-key rows", n, 80)
 
 
 def run(chk):
@@ -76,7 +122,7 @@ def run(chk):
     r4 = chk.rule("C20.R4", "rejection is always MemcacheIllegalInputError")
     work = []
     for kind in ("bytes", "str"):
-        syms = ("x",) + SPECIAL + (("u",) if kind == "str" else ())
+        syms = ("x",) + SPECIAL + (("u",) if kind == "str" else ("h",))
         pats = list(patterns(syms, maxlen))
         step = max(1, len(pats) // (32 if thorough else 1))
         for i in range(0, len(pats), step):
@@ -133,6 +179,10 @@ def run(chk):
         r4.expect(nm == EXC, "raise site line %d raises %s" % (x.lineno, EXC), "check_key_helper:raise-site:%s" % nm, "a raise statement of check_key_helper raises %s" % nm, fn=fn, node=x)
     r4.floor("raise sites", len(raises), 3)
 
+    # ------------------------------------------------------------------ R6 the rejection reaches the caller
+    r6 = chk.rule("C20.R6", "a rejected key stops the operation: every key-addressed method of Client raises MemcacheIllegalInputError for an illegal key at any position of its batch, with and without ignore_exc, before anything is sent")
+    illegal_key_rows(prog, r6)
+
     # ------------------------------------------------------------------ R5
     r5 = chk.rule("C20.R5", "Client, PooledClient and HashClient all validate through check_key_helper with their own unicode setting and prefix; every key on the wire went through it")
     sites = []
@@ -166,6 +216,34 @@ def run(chk):
     for q in want_prefix:
         if q not in seen:
             r5.fail("%s:no-validation" % q, "%s no longer validates keys through check_key_helper" % q, file="pymemcache/client/base.py")
+    # the rule has no switches: a parameter of the validators beyond (key, allow_unicode_keys, key_prefix) takes its
+    # default at every call site - a caller that passes something else turns part of the validation off for its keys
+    base_params = {"check_key_helper": 3, "check_key": 2}
+    validators = [fn] + [m_ for c_ in prog.classes.values() for m_ in c_.methods.values() if m_.name == "check_key"]
+    for v in validators:
+        pps = [p_ for p_ in v.params if p_.name != "self"]
+        extra = pps[base_params["check_key_helper" if v is fn else "check_key"]:]
+        if not extra:
+            continue
+        for f in prog.all_functions():
+            for c in walk_no_nested(f.node):
+                if not (isinstance(c, ast.Call) and call_name(c).split(".")[-1] == v.name):
+                    continue
+                given = {}
+                for p_, a_ in zip(pps, c.args):
+                    given[p_.name] = a_
+                for k_ in c.keywords:
+                    if k_.arg is not None:
+                        given[k_.arg] = k_.value
+                    else:
+                        given["**"] = k_.value
+                for p_ in extra:
+                    a_ = given.get(p_.name, given.get("**"))
+                    if a_ is None:
+                        continue
+                    same = isinstance(a_, ast.Constant) and p_.has_default and isinstance(p_.default, ast.Constant) and a_.value == p_.default.value and type(a_.value) is type(p_.default.value)
+                    forwarded = isinstance(a_, ast.Name) and f.param(a_.id) is not None and f.name == "check_key"  # a wrapper handing its own parameter on: judged at *its* call sites
+                    r5.expect(same or forwarded, "%s passes the default for `%s`" % (f.qualname, p_.name), "%s:validation-option:%s" % (f.qualname, p_.name), "%s calls %s with %s=%s: `%s` is not part of the documented rule (every key is checked for length, whitespace, NUL and encoding), so for the keys of this caller a part of the check is switched off or altered" % (f.qualname, v.qualname, p_.name, node_src(a_), p_.name), fn=f, node=c)
     wrapper_returns(prog, r5)
     # HashClient: on every path through _get_client the routed key has been validated before the hasher is asked
     # (a key that is never validated here is only rejected inside the safe runner, where ignore_exc swallows it)
@@ -315,13 +393,13 @@ def _derives_from_key(v, first):
 
 
 def _features(kind, au, prefix, pat, scen):
-    enc = merge("x" if s == "u" else s for s in pat)
+    enc = merge("h" if s == "u" else s for s in pat)
     full = merge(tuple(prefix) + tuple(enc))
     toks = tokens_of(full)
     return (
         kind,
         au,
-        "u" in pat,
+        "u" in pat or "h" in pat,
         min(len(toks), 2),
         full[0] in WS,
         full[-1] in WS,
